@@ -53,7 +53,9 @@ def perturb(ts, kind, rng):
         for j in range(int(rng.integers(1, 4))):
             t.provenances.add_row(record=json.dumps({"x": j}), timestamp="2001-01-01T00:00:00")
     elif kind == "monomorphic":
-        return zoo.add_monomorphic_sites(ts, rng, k=int(rng.integers(1, 6)))[0]
+        extra = ts.num_mutations - len(np.unique(ts.mutations_site))
+        k = extra if (extra > 0 and rng.random() < 0.7) else int(rng.integers(1, 6))
+        return zoo.add_monomorphic_sites(ts, rng, k=k)[0]
     elif kind == "individuals":
         t.individuals.clear()
         ind = np.full(t.nodes.num_rows, tskit.NULL, dtype=np.int32)
@@ -101,6 +103,14 @@ def case(ctx, i, rec):
             ts, r = zoo.sim(rng)
     if ts.num_mutations == 0:
         ts, r = zoo.sim(rng)
+    if k1 == "monomorphic" and rng.random() < 0.7:
+        # several mutations per site on a multi-tree input, so that counts of sites and
+        # mutations can coincide after monomorphic sites are added
+        ts, r = zoo.sim(rng, n=int(rng.integers(4, 10)), L=1e3, mut_per_edge=float(rng.choice([1.0, 3.0])))
+        ts, _ = zoo.add_recurrent_mutations(ts, rng, k=int(rng.integers(1, 4)))
+        r["gen"] = "recurrent_multitree"
+        if method != "variational_gamma" and not common.discrete_ok(ts):
+            method = "variational_gamma"
     kw = {"mutation_rate": common.default_mu(ts, r)}
     if method == "variational_gamma":
         kw.update(common.vg_kwargs(rng))
